@@ -1464,7 +1464,9 @@ SoPlexBase<R>& SoPlexBase<R>::operator=(const SoPlexBase<R>& rhs)
       _ratiotesterHarris = rhs._ratiotesterHarris;
       _ratiotesterFast = rhs._ratiotesterFast;
       _ratiotesterBoundFlipping = rhs._ratiotesterBoundFlipping;
-      _tolerances = rhs._tolerances;
+      // the copy gets its own tolerances object: sharing it would make a parameter change in one solver silently
+      // change the tolerances used by the other
+      _tolerances = std::make_shared<Tolerances>(*rhs._tolerances);
 
       // copy solution data
       _status = rhs._status;
@@ -1541,6 +1543,7 @@ SoPlexBase<R>& SoPlexBase<R>::operator=(const SoPlexBase<R>& rhs)
          _realLP = 0;
          spx_alloc(_realLP);
          _realLP = new(_realLP) SPxLPBase<R>(*(rhs._realLP));
+         _realLP->setTolerances(_tolerances);
       }
       else
          _realLP = &_solver;
@@ -1567,7 +1570,7 @@ SoPlexBase<R>& SoPlexBase<R>::operator=(const SoPlexBase<R>& rhs)
          _colTypes = rhs._colTypes;
          _rationalPosInfty = rhs._rationalPosInfty;
          _rationalNegInfty = rhs._rationalNegInfty;
-         _rationalLP->setTolerances(rhs._rationalLP->tolerances());
+         _rationalLP->setTolerances(_tolerances);
          _rationalLUSolver = rhs._rationalLUSolver;
          _rationalLUSolverBind = rhs._rationalLUSolverBind;
       }
